@@ -291,8 +291,8 @@ def bind_role(body, role, origin_rx=None, full=False, type_rx=None, used_as=None
     cands = []
     ov = None
     for l, names in list(body.varnames.items()):
-        if not names:
-            continue
+        if not names or names[0] in ('val', 'residual', '__next', '__awaitee'):
+            continue   # bindings introduced by the desugaring of `?`, `for`, `.await`
         if type_rx and not re.search(type_rx, body.locals[l]):
             continue
         if origin_rx:
